@@ -1,8 +1,12 @@
 import Lean.Data.Json
+import AFDriver.Wire
+import AFModel.FloatOps
 import AFModel.Freeze
+import AFModel.FreezeTree
+import AFModel.RecCache
 
 open Lean (Json)
-open AF
+open AF AF.Wire
 
 namespace AF.Driver
 
@@ -36,7 +40,99 @@ def jsonOfFOut : FOut → Json
   | .rejected => Json.str "rejected"
   | .done => Json.str "done"
 
+/-! ### tree refinement (`AFModel/FreezeTree.lean`): request `{"mode": "tree", "roots": [comp…], "ops": […]}` -/
+
+def parsePath (j : Json) : Except String Path := do
+  (← j.getArr?).toList.mapM (·.getStr?)
+
+def parseTQuery (kind : String) (vec : List Float) : Except String (TQuery Float) :=
+  match kind with
+  | "count" => pure .count
+  | "paths" => pure .paths
+  | "pathIds" => pure .pathIds
+  | "uniquePaths" => pure .uniquePaths
+  | "ids" => pure .ids
+  | "inst" => pure (.inst vec)
+  | s => throw s!"bad query {s}"
+
+def jsonOfNats (l : List Nat) : Json := Json.arr (l.map (fun (n : Nat) => Json.num (n : Lean.JsonNumber))).toArray
+
+def jsonOfTAns : TAns Float → Json
+  | .nat n => Json.num (n : Lean.JsonNumber)
+  | .pathsA l => Json.arr (l.map jsonOfPath).toArray
+  | .natsA l => jsonOfNats l
+  | .instA i => jsonOfInst i
+  | .wrongLength => Json.str "wrong-length"
+
+def jsonOfTOut : TOut Float → Json
+  | .answered a => Json.mkObj [("answered", jsonOfTAns a)]
+  | .rejected => Json.str "rejected"
+  | .done => Json.str "done"
+  | .invalid => Json.str "invalid"
+
+/-- one wire op = one or (for a battery of questions) several model steps -/
+def parseSOps (j : Json) : Except String (List (SOp Float)) := do
+  let a ← j.getArr?
+  if a.size < 3 then throw "bad tree op"
+  let k ← a[0]!.getStr?
+  let r ← a[1]!.getNat?
+  let p ← parsePath a[2]!
+  match k with
+  | "query" =>
+    let kinds ← (← a[3]!.getArr?).toList.mapM (·.getStr?)
+    let vec ← if a.size > 4 then vecOfJson a[4]! else pure []
+    kinds.mapM fun kd => do pure (SOp.on r (.query p (← parseTQuery kd vec)))
+  | "freeze" => pure [.on r (.freeze p)]
+  | "unfreeze" => pure [.on r (.unfreeze p)]
+  | "set" => pure [.on r (.setAttr p (← a[3]!.getStr?) (← parseNode a[4]!).node)]
+  | "remove" => pure [.on r (.remove p (← a[3]!.getStr?))]
+  | "failing" => pure [.on r (.failing p)]
+  | "copy" => pure [.copy r p]
+  | s => throw s!"bad tree op {s}"
+
+/-- the wire op's addressed object: (is a copy, model number, path) -/
+def parseTarget (j : Json) : Except String (Bool × Nat × Path) := do
+  let a ← j.getArr?
+  if a.size < 3 then throw "bad tree op"
+  pure ((← a[0]!.getStr?) == "copy", (← a[1]!.getNat?), (← parsePath a[2]!))
+
+def handleC13Tree (j : Json) : Except String Json := do
+  let roots ← (← (j.getObjVal? "roots") >>= (·.getArr?)).toList.mapM fun c => do pure (← parseNode c).node
+  let wj := (← (j.getObjVal? "ops") >>= (·.getArr?)).toList
+  let wops ← wj.mapM parseSOps
+  let tgts ← wj.mapM parseTarget
+  let rec go (S : Store Float) (wops : List (List (SOp Float) × (Bool × Nat × Path))) (outs safe flags : List Json) :
+      List Json × List Json × List Json :=
+    match wops with
+    | [] => (outs.reverse, safe.reverse, flags.reverse)
+    | (steps, (isCopy, r, p)) :: rest =>
+      let sf := steps.all (sopSafe S)
+      let res := srun floatOps S steps
+      -- `_is_frozen` of the addressed object after the op (of the new model after a copy)
+      let fl := if isCopy then (res.1.roots.getLast?.map (fun s => s.frozen [])).getD false
+                else (res.1.roots[r]?.map (fun s => s.frozen p)).getD false
+      go res.1 rest (Json.arr (res.2.map jsonOfTOut).toArray :: outs) (Json.bool sf :: safe) (Json.bool fl :: flags)
+  let (outs, safe, flags) := go ⟨roots.map TState.init⟩ (wops.zip tgts) [] [] []
+  pure (Json.mkObj [("outs", Json.arr outs.toArray), ("safe", Json.arr safe.toArray), ("frozen", Json.arr flags.toArray)])
+
+/-! ### recursion cache (`AFModel/RecCache.lean`): request `{"mode": "reccache", "calls": [call…]}` -/
+
+partial def parseRCall (j : Json) : Except String RCall := do
+  let id ← getNat j "id"
+  let raises ← getBool j "raises"
+  let ch ← (← getArr j "children").toList.mapM parseRCall
+  pure (.node id raises ch)
+
+def handleC13Rec (j : Json) : Except String Json := do
+  let calls ← (← getArr j "calls").toList.mapM parseRCall
+  let r := rcalls ⟨[], []⟩ calls
+  let outs := r.2.map fun o => match o with
+    | .ok => Json.str "ok" | .raised => Json.str "raised" | .promise => Json.str "promise"
+  pure (Json.mkObj [("outs", Json.arr outs.toArray), ("cache", jsonOfNats r.1.cache), ("trace", jsonOfNats r.1.trace)])
+
 def handleC13 (j : Json) : Except String Json := do
+  if (j.getObjVal? "mode").toOption == some (Json.str "reccache") then return (← handleC13Rec j)
+  if (j.getObjVal? "mode").toOption == some (Json.str "tree") then return (← handleC13Tree j)
   let T : Topo := { sub := (← natListMap (← j.getObjVal? "sub")), anc := (← natListMap (← j.getObjVal? "anc")) }
   let frozen0 ← match j.getObjVal? "init_frozen" with
     | .ok v => (← v.getArr?).toList.mapM (·.getNat?)
